@@ -51,7 +51,10 @@ def baselines(run, rng):
 def body(run):
     rng = random.Random(run.seed)
     T = run.thorough()
-    st = Q.design(PID, ["MC_QL_stall.cfg", "MC_QL_live.cfg"] + (["MC_QL_select.cfg", "MC_QL_live_stall.cfg"] if T else []))
+    # (MC_QL_live_excstall.cfg: the model of the current code does not satisfy Returns once a server exception meets a
+    #  blocked write - known finding F-29; the run is kept as the model-level reproduction of it)
+    st = Q.design(PID, ["MC_QL_stall.cfg", "MC_QL_live.cfg"] + (["MC_QL_select.cfg", "MC_QL_live_stall.cfg"] if T else []),
+                  nonvac=[("MC_QL_live_excstall.cfg", "Returns")])
     drv = V.go_build(PID, "drv")
     base = baselines(run, rng)
     blines, bstats = Q.run_scenarios(PID, drv, base, name="c10-base")
@@ -86,6 +89,13 @@ def body(run):
         for p in range(0, min(len(ex), 12) + 1, 2):
             scs.append(Q.scenario("c10-%d" % (len(scs) + 1), c, sched=ex[:p] + "Z" + "SSSS" + "C", compression=begin["compression"], rev=begin["rev"]))
             scs.append(Q.scenario("c10-%d" % (len(scs) + 1), c, sched="Z" + ex[:p] + "C" + "SS", compression=begin["compression"], rev=begin["rev"]))
+    # the server has answered with an exception while the sender is still blocked in a write (the server does not read the
+    # rest of the INSERT); then the caller cancels: the call must still end
+    for scn, kw in (("insert", {"init_rows": 1}), ("stream", {"plan": [Q.Pl("append", "nil"), Q.Pl("reset", "eof")], "init_rows": 1})):
+        for s in ((Q.S("exc"),) if scn == "insert" else (Q.S("hdr", "exc"),)):
+            for how in ("C", "D", "DT"):
+                scs.append(Q.scenario("c10-%d" % (len(scs) + 1), Q.cfg(scn, s, **kw), sched="Z" + "S" * 8 + "V" * len(s) + "RRRR" + "WW" + how + "SSWW",
+                                      compression=rng.choice(["disabled", "lz4"])))
     behs, _ = Q.tlc_behaviours(PID, "Gen_QL_stall.cfg", 3000 if T else 300, run.seed + 7)
     for c, sched in behs:
         scs.append(Q.scenario("c10-%d" % (len(scs) + 1), Q.from_tlc_cfg(c), sched=sched, compression=rng.choice(["disabled", "lz4"])))
